@@ -487,8 +487,11 @@ def run_pipeline(
             if buckets_data_tree.is_empty:
                 buckets_data_tree = partial_datatree_2d
             else:
+                # Append the buckets of this readout along 'time'.
+                # Note: 'xr.merge' aligns on 'time' with an outer join, which goes through NaN and
+                #       float64 and loses the integer values of the image above 2^53
                 buckets_data_tree = xr.map_over_datasets(
-                    lambda *data: xr.merge(data),  # function
+                    lambda *data: xr.concat(data, dim="time"),  # function
                     buckets_data_tree,
                     partial_datatree_2d,
                 )
